@@ -155,13 +155,40 @@ Example C11_ex_infer : (64 mod Z.quot 64 4 = 0)%Z /\ Z.quot 64 (Z.quot 64 4) = 4
 Proof. split; reflexivity. Qed.
 
 (* ---- tie to the source: Gen/Funcs.v is TRANSLATED from the Go code by tools/gotrans on every run *)
-From GoMC Require Gen.Funcs Proofs.C11_tie.
+From GoMC Require Base.GoInt Gen.Funcs Proofs.C11_tie.
 Theorem C11_calc_size_translated : forall b n r : Z, (0 <= b <= 64)%Z -> (0 <= n < 2 ^ 62)%Z -> calc_size b n = Some r -> Funcs.level_calcBitStorageSize b n = r.
 Proof. exact C11_tie.tie_calcBitStorageSize. Qed.
 Theorem C11_calc_bits_translated : forall n l r : Z, (0 <= n < 2 ^ 62)%Z -> (0 <= l < 2 ^ 62)%Z -> calc_bits n l = Some r -> Funcs.level_calcBitsPerValue n l = r.
 Proof. exact C11_tie.tie_calcBitsPerValue. Qed.
 Theorem C11_calc_index_translated : forall st n, (0 <= n < 2 ^ 31)%Z -> (0 < vpl st <= 64)%Z -> (0 <= bits st <= 64)%Z -> Funcs.level_BitStorage_calcIndex n (vpl st) (bits st) = calc_index st n.
 Proof. exact C11_tie.tie_calcIndex. Qed.
+Theorem C11_get_translated : forall st i, C11_tie.fields_ok st -> snd (bs_get st i) <> OPanic pRt ->
+  Funcs.level_BitStorage_Get i (vpl st) (blen st) (bits st) (C11_tie.dataf st) (Z.of_N (mask st)) =
+  match snd (bs_get st i) with ORet v => GoInt.GoRet v | _ => GoInt.GoPanic end.
+Proof. exact C11_tie.tie_Get. Qed.
+Theorem C11_set_translated : forall st i v, C11_tie.fields_ok st -> snd (bs_set st i v) <> OPanic pRt ->
+  Funcs.level_BitStorage_Set i v (vpl st) (Z.of_N (mask st)) (blen st) (bits st) (C11_tie.dataf st) =
+  match bs_set st i v, locate st i with
+  | (_, OUnit), Some (c, off, l) =>
+      if (vpl st =? 0)%Z then GoInt.GoRet [] else GoInt.GoRet [(Z.of_nat c, Z.of_N (set_long l (mask st) off (u64 v)))]
+  | (_, OUnit), None => GoInt.GoRet []
+  | _, _ => GoInt.GoPanic
+  end.
+Proof. exact C11_tie.tie_Set. Qed.
+Theorem C11_swap_translated : forall st i v, C11_tie.fields_ok st -> snd (bs_swap st i v) <> OPanic pRt ->
+  Funcs.level_BitStorage_Swap i v (vpl st) (Z.of_N (mask st)) (blen st) (bits st) (C11_tie.dataf st) =
+  match bs_swap st i v, locate st i with
+  | (_, ORet old), Some (c, off, l) =>
+      if (vpl st =? 0)%Z then GoInt.GoRet (old, []) else GoInt.GoRet (old, [(Z.of_nat c, Z.of_N (set_long l (mask st) off (u64 v)))])
+  | (_, ORet old), None => GoInt.GoRet (old, [])
+  | _, _ => GoInt.GoPanic
+  end.
+Proof. exact C11_tie.tie_Swap. Qed.
+(* non-vacuity: a 5-bit storage of 20 values meets fields_ok and never reaches the run-time panic *)
+Example C11_translated_ex :
+  let st := mkBS [0x37f1150f95; 7] 31 5%Z 20%Z 12%Z in
+  C11_tie.fields_ok st /\ snd (bs_get st 13) <> OPanic pRt /\ snd (bs_set st 13 9) <> OPanic pRt.
+Proof. cbv zeta. split; [unfold C11_tie.fields_ok; cbn [blen vpl bits mask]; repeat split; try discriminate; reflexivity|]. split; vm_compute; discriminate. Qed.
 
 Print Assumptions C11_histories.
 Print Assumptions C11_get_set.
@@ -188,3 +215,6 @@ Print Assumptions C11_infer_partial.
 Print Assumptions C11_calc_size_translated.
 Print Assumptions C11_calc_bits_translated.
 Print Assumptions C11_calc_index_translated.
+Print Assumptions C11_get_translated.
+Print Assumptions C11_set_translated.
+Print Assumptions C11_swap_translated.
